@@ -55,15 +55,28 @@ def ref_stripe(x, npart, box):
     return s, near, np.rint(q).astype(np.int64)
 
 
-def one_call(run, tsc, rng, N, npart, coord, dtype, wkind, sort, nthread, family, box):
+def one_call(run, tsc, rng, N, npart, coord, dtype, wkind, sort, nthread, family, box, layout='plain'):
     pos, tag = make_positions(rng, N, box, npart, coord, dtype, family)
     if wkind is None:
         w = None
     else:
         w = tag.astype(wkind)
+    if layout == 'strided':
+        # non-contiguous views are ordinary arrays to the caller
+        big = np.zeros((N, 6), dtype=dtype)
+        big[:, ::2] = pos
+        pos = big[:, ::2]
+        if w is not None:
+            wb = np.zeros(2 * N, dtype=w.dtype)
+            wb[::2] = w
+            w = wb[::2]
+    elif layout == 'fortran':
+        pos = np.asfortranarray(pos)
+    if layout != 'plain':
+        npart, box = np.int64(npart), (int(box) if float(box).is_integer() else box)
     pos0 = pos.copy()
     w0 = None if w is None else w.copy()
-    desc = dict(N=N, npartition=npart, coord=coord, dtype=np.dtype(dtype).str, weights=None if wkind is None else np.dtype(wkind).str, sort=sort, nthread=nthread, family=family, box=box)
+    desc = dict(N=N, npartition=npart, coord=coord, dtype=np.dtype(dtype).str, weights=None if wkind is None else np.dtype(wkind).str, sort=sort, nthread=nthread, family=family, box=float(box), layout=layout)
     core.poison_prime()
     run.ev()
     psort, starts, wsort = tsc.partition_parallel(pos, npart, box, weights=w, coord=coord, nthread=nthread, sort=sort)
@@ -143,7 +156,7 @@ def check(run):
         nthread = int(rng.integers(1, 17))
         fam = fams[int(rng.integers(0, 4))]
         box = float(rng.choice([1.0, 123.0, 2000.0]))
-        if one_call(run, tsc, rng, N, npart, int(rng.integers(0, 3)), dtype, wk, bool(rng.integers(0, 2)), nthread, fam, box):
+        if one_call(run, tsc, rng, N, npart, int(rng.integers(0, 3)), dtype, wk, bool(rng.integers(0, 2)), nthread, fam, box, layout=(['plain', 'plain', 'strided', 'fortran' if not run.quick else 'plain'][k % 4] if (dtype == np.float32 or not run.quick) else 'plain')):
             if run.too_many():
                 return
         k += 1
